@@ -237,7 +237,9 @@ def run(ctx):
                                                                      for o in origins(clp0, v)), True)
         ctx.check('C10.O1', ok, clp0.name, 'CLParser:include-note-dropped-as-filename', clp0.where(e),
                   'FilterInputFilename is consulted only for lines FilterShowIncludes did not recognise')
-    ctx.floor('C10.O1', 7)
+    from props.scan_common import check_readfile_status
+    check_readfile_status(ctx, 'C10.O1', prog, ['Builder::ExtractDeps', 'ImplicitDepLoader::LoadDepFile'])
+    ctx.floor('C10.O1', 9)
 
     # ---- CN ------------------------------------------------------------------------------------------
     R('C10.CN', 'CN', 'depfile, deps=gcc and deps=msvc paths are canonicalised before they become nodes')
